@@ -2009,6 +2009,28 @@ def rule_c18_lock(r):
                 "into the same `<dll>.<pid>.tmp`, and one renames the other's half-written output onto the cache name")
     if n < 1:
         raise AnalysisError("sasview_model: lazy build site not found")
+    # the lock is one object for the life of the process: bound once at module level, never rebound
+    binds = []
+    for node in ast.walk(mod.tree):
+        tg = []
+        if isinstance(node, ast.Assign):
+            tg = node.targets
+        elif isinstance(node, (ast.AugAssign, ast.AnnAssign)):
+            tg = [node.target]
+        for t in tg:
+            for nm in ast.walk(t):
+                if isinstance(nm, ast.Name) and nm.id == LOCK:
+                    binds.append(node)
+        if isinstance(node, ast.Global) and LOCK in node.names:
+            binds.append(node)
+        if isinstance(node, ast.Delete) and any(isinstance(t, ast.Name) and t.id == LOCK for t in node.targets):
+            binds.append(node)
+    top = [b for b in binds if parents.get(b) is mod.tree]
+    other = [b for b in binds if parents.get(b) is not mod.tree]
+    r.check(len(top) == 1 and not other, F, "<module>", "%s bound once, at module level" % LOCK, top[0].lineno if top else 0,
+            "one lock object for the life of the process" if len(top) == 1 and not other else
+            "%s is rebound at line(s) %s: a calculation that holds the old lock and one that takes the new lock run (and build) "
+            "at the same time" % (LOCK, sorted(b.lineno for b in other) or sorted(b.lineno for b in top)))
 
 
 # --------------------------------------------------------------------------------------------- C20: SLD rescale through chained renames
@@ -2123,6 +2145,198 @@ def rule_f2i(r):
             _, status, f, fn, construct, line, detail = row
             key = (f, line, construct)
             if status != "ok" and key in seen:
+                continue
+            seen.add(key)
+            getattr(r, status)(f, fn, construct, line, detail)
+
+
+# --------------------------------------------------------------------------------------------- C07/C14: ordering between radius modes
+def modeorder_unit(unit, extra):
+    """Worker: the effective-radius modes of one model are related by their names: a half diagonal is at least as long as
+    every half side / radius it is the diagonal of.  Each mode is interpreted symbolically and D^2 - M^2 must be
+    non-negative for all positive parameters (decided by sympy on the expanded polynomial)."""
+    import re
+    from ..nf import CInterp
+    out = []
+    modes = (extra or {}).get("modes", {}).get(unit.name)
+    if not modes or "radius_effective" not in unit.functions or unit.body(unit.fn("radius_effective")) is None:
+        return out
+    f = unit.fn("radius_effective")
+    ff, ll = unit.where(f)
+    pn = [p["name"] for p in unit.params(f)]
+    vals = {}
+    for i, name in enumerate(modes, 1):
+        try:
+            it = CInterp(unit.functions, facts={"mode": i})
+            v = it.call("radius_effective", [sp.Integer(i)] + [sp.Symbol(p, positive=True) for p in pn[1:]])
+        except Exception:
+            v = None
+        if v is not None:
+            vals[name] = (i, v)
+
+    def cases(exprs):
+        """resolve every where(c, a, b) in the expressions by case distinction on the distinct conditions (at most 4)"""
+        conds = []
+        for e in exprs:
+            for t in sp.preorder_traversal(e):
+                if getattr(getattr(t, "func", None), "__name__", "") == "where" and t.args[0] not in conds:
+                    conds.append(t.args[0])
+        if len(conds) > 4:
+            return None
+        out_ = []
+        for mask in range(1 << len(conds)):
+            choice = {c: bool(mask >> k & 1) for k, c in enumerate(conds)}
+            def res(e):
+                if getattr(getattr(e, "func", None), "__name__", "") == "where":
+                    return res(e.args[1] if choice[e.args[0]] else e.args[2])
+                if getattr(e, "args", None):
+                    return e.func(*[res(a) for a in e.args])
+                return e
+            out_.append([res(e) for e in exprs])
+        return out_
+    DIAG = re.compile(r"^half (outer )?diagonal$")
+    SIDE = re.compile(r"^half (outer )?(total )?length(_[abc])?$|^(outer )?radius$|^half (outer )?thickness$|^half (outer )?ab diagonal$")
+    for dname, (di, dv) in sorted(vals.items()):
+        md = DIAG.match(dname)
+        if not md:
+            continue
+        outer = "outer" in dname
+        for sname, (si, sv) in sorted(vals.items()):
+            if not SIDE.match(sname) or ("outer" in sname) != outer:
+                continue
+            diff, ok = None, True
+            try:
+                cs = cases([dv, sv])
+                if cs is None:
+                    ok = None
+                else:
+                    for d1, s1 in cs:
+                        df = sp.expand(sp.simplify(d1 ** 2 - s1 ** 2))
+                        o1 = df.is_nonnegative
+                        if o1 is not True:
+                            diff = df
+                            ok = o1
+                            break
+                    else:
+                        diff = sp.expand(sp.simplify(cs[0][0] ** 2 - cs[0][1] ** 2))
+            except Exception:
+                ok = None
+            if ok is None:
+                out.append(("R-C14-mode-order", "note", ff, "%s:radius_effective" % unit.name, "mode %d %r >= mode %d %r" % (di, dname, si, sname), ll,
+                            "not decided: D^2 - M^2 = %s" % str(diff)[:100]))
+                # an expression with both signs is a definite failure when it is a polynomial whose terms are not all of one sign
+                terms = sp.Add.make_args(diff)
+                if all(t.is_positive or t.is_negative for t in terms) and any(t.is_negative for t in terms):
+                    out[-1] = ("R-C14-mode-order", "violation", ff, "%s:radius_effective" % unit.name, "mode %d %r >= mode %d %r" % (di, dname, si, sname), ll,
+                               "the %s is shorter than the %s for some shapes: D^2 - M^2 = %s changes sign (a half/full length mix-up in "
+                               "one of the two modes)" % (dname, sname, str(diff)[:100]))
+            else:
+                out.append(("R-C14-mode-order", "ok" if ok else "violation", ff, "%s:radius_effective" % unit.name,
+                            "mode %d %r >= mode %d %r" % (di, dname, si, sname), ll,
+                            "D^2 - M^2 = %s >= 0" % str(diff)[:80] if ok else "D^2 - M^2 = %s" % str(diff)[:100]))
+    return out
+
+
+_modeorder_cache = None
+
+
+def rule_c14_modeorder(r):
+    global _modeorder_cache
+    if _modeorder_cache is None:
+        from .. import cfront
+        from . import c14
+        modes = c14._c_results().get("__modes__")
+        _modeorder_cache = cfront.map_units("sa.rules.extra3:modeorder_unit", extra={"modes": modes})
+    for unit, rows in sorted(_modeorder_cache.items()):
+        for row in rows:
+            _, status, f, fn, construct, line, detail = row
+            getattr(r, status)(f, fn, construct, line, detail)
+
+
+# --------------------------------------------------------------------------------------------- C14: zero guards test what is divided by
+def zeroguard_unit(unit, extra):
+    """Worker: `if (V == 0) limit; else ... / W` where W is a local defined as a product with the factor V (qr = q*r): the
+    divisor is zero whenever *any* factor is, so the guard has to test W itself.  A guard on one factor leaves the other
+    factor's zero (a radius at its inclusive lower limit 0) dividing by zero."""
+    from .. import cfront
+    from ..nf import c_text, c_strip
+    from ..ckernel import kids, product_factors
+    out = []
+    n = 0
+    for fname, fn in sorted(unit.functions.items()):
+        body = unit.body(fn)
+        if body is None:
+            continue
+        f0, _ = unit.where(fn)
+        if "/models/" not in (f0 or ""):
+            continue
+        prods = {}
+        for x in cfront.walk(body):
+            if x.get("kind") == "VarDecl" and kids(x):
+                fs = product_factors(kids(x)[0])
+                if len(fs) >= 2:
+                    prods[x["name"]] = {f_["referencedDecl"]["name"] for f_ in fs if f_.get("kind") == "DeclRefExpr"}
+        for st in cfront.walk(body):
+            if st.get("kind") != "IfStmt":
+                continue
+            parts = kids(st)
+            c = c_strip(parts[0])
+            while c.get("kind") == "ParenExpr":
+                c = c_strip(kids(c)[0])
+            if c.get("kind") != "BinaryOperator" or c.get("opcode") != "==":
+                continue
+            a, b = (c_strip(k_) for k_ in kids(c))
+            if a.get("kind") != "DeclRefExpr" or b.get("kind") not in ("FloatingLiteral", "IntegerLiteral") or float(b["value"]) != 0:
+                continue
+            V = a["referencedDecl"]["name"]
+            n += 1
+            rest = parts[2] if len(parts) > 2 else None
+            if rest is None:
+                # `if (V == 0) return limit;` - the other branch is what follows in the enclosing block
+                def ends_ret(s_):
+                    return s_.get("kind") == "ReturnStmt" or (s_.get("kind") == "CompoundStmt" and kids(s_) and ends_ret(kids(s_)[-1]))
+                if not ends_ret(parts[1]):
+                    continue
+                for comp in cfront.walk(body):
+                    if comp.get("kind") == "CompoundStmt" and any(x_ is st for x_ in kids(comp)):
+                        sib = kids(comp)
+                        rest = {"kind": "CompoundStmt", "inner": sib[[i_ for i_, x_ in enumerate(sib) if x_ is st][0] + 1:]}
+                        break
+                if rest is None:
+                    continue
+            bad = None
+            for x in cfront.walk(rest):
+                if x.get("kind") in ("BinaryOperator", "CompoundAssignOperator") and x.get("opcode") in ("/", "/="):
+                    den = kids(x)[1]
+                    for y in cfront.walk(den):
+                        if y.get("kind") == "DeclRefExpr":
+                            W = y["referencedDecl"]["name"]
+                            if W != V and V in prods.get(W, set()) and len(prods[W]) >= 2:
+                                bad = (x, W)
+            f, l = unit.where(st)
+            if bad:
+                out.append(("R-C14-zero-guard", "violation", f, "%s:%s" % (unit.name, fname), "if (%s == 0) ... else ... / %s" % (V, bad[1]), l,
+                            "the branch divides by `%s`, a product of %s, but only `%s` is tested: when another factor is zero (a size at "
+                            "its inclusive lower limit) the limit branch is skipped and the result is 0/0" % (bad[1], sorted(prods[bad[1]]), V)))
+            else:
+                out.append(("R-C14-zero-guard", "ok", f, "%s:%s" % (unit.name, fname), "if (%s == 0)" % V, l, "no divisor in the other branch is a product with further factors"))
+    return out
+
+
+_zg_cache = None
+
+
+def rule_c14_zeroguard(r):
+    global _zg_cache
+    if _zg_cache is None:
+        from .. import cfront
+        _zg_cache = cfront.map_units("sa.rules.extra3:zeroguard_unit")
+    seen = set()
+    for unit, rows in sorted(_zg_cache.items()):
+        for row in rows:
+            _, status, f, fn, construct, line, detail = row
+            key = (f, line, construct)
+            if key in seen:
                 continue
             seen.add(key)
             getattr(r, status)(f, fn, construct, line, detail)
